@@ -88,6 +88,8 @@ def gen(rng, knobs):
                 script.append(["send", json.dumps(["CLOSE", rng.choice(opened)])])
             elif c < 0.85 and unsent:
                 script.append(["send", json.dumps(["EVENT", unsent.pop()])])
+                if rng.random() < 0.1:
+                    script.append(script[-1])          # the same event again at once (it may still be on its way into the store)
             elif c < 0.95:
                 script.append(["barrier"])
             else:
@@ -197,9 +199,11 @@ def run(case, sim):
                 ok = mine[0][2] if mine and len(mine[0]) > 2 else None
                 events[m[1]["id"]] = {"ev": m[1], "t0": fr["t_deliver"], "t1": hi, "ok": ok, "c": c.idx}
                 times_submitted[m[1]["id"]] += 1
+    resubmitted = {}
     for eid, n in times_submitted.items():
         if n > 1:
-            del events[eid]        # resubmissions are C06's business
+            resubmitted[eid] = events.pop(eid)        # the OK side of resubmissions is C06's business; here only
+            #                                           "exactly once": see the clause after the main loop
     # ---- subscription incarnations ------------------------------------------------------
     subs = []
     for c in w.clients:
@@ -309,6 +313,34 @@ def run(case, sim):
             nontrivial = True
         recipients[eid[:6]] = sorted(rec)
         probes["accepted_events"] += 1
+    # an id submitted several times is still one event: a subscription whose stored query had ended before the
+    # first submission gets it at most once per time it really entered the store
+    first_sub = {}
+    for c in w.clients:
+        for fr in c.frames:
+            m = parse(fr["text"])
+            if isinstance(m, list) and len(m) >= 2 and m[0] == "EVENT" and isinstance(m[1], dict) and m[1].get("id") in resubmitted:
+                first_sub[m[1]["id"]] = min(first_sub.get(m[1]["id"], INF), fr["t_deliver"])
+    for eid, E in resubmitted.items():
+        ev = E["ev"]
+        if not model.wellformed(ev) or model.is_ephemeral(ev.get("kind", 1)):
+            continue
+        inserted, prev = 0, False
+        for _seq, d in w.env.states:
+            now_in = eid in d
+            if now_in and not prev:
+                inserted += 1
+            prev = now_in
+        for S in subs:
+            same_id = [x for x in subs if x["c"] == S["c"] and x["id"] == S["id"]]
+            if len(same_id) != 1 or S["refused"] or S["eose"] >= first_sub.get(eid, 0):
+                continue
+            n = len(pushes.get((S["c"], S["id"], eid), []))
+            if n > max(1, inserted):
+                viol.append({"cls": "over-delivered", "sig": "over-delivered|%s|resubmitted|stored=%d" % (backend, inserted),
+                             "detail": {"event": oracles.brief(ev), "conn": S["c"], "sub": S["id"], "got": n,
+                                        "times_stored": inserted, "submissions": times_submitted[eid]}})
+                break
     # stored results only before EOSE for events fully handled before the REQ
     for S in subs:
         for eid, E in events.items():
